@@ -251,7 +251,13 @@ func (s *Sched) accessHook(obj any, field string, write bool) {
 		return
 	}
 	t := s.threads[s.cur]
-	key := accessKey{reflect.ValueOf(obj).Pointer(), field}
+	rv := reflect.ValueOf(obj)
+	switch rv.Kind() {
+	case reflect.Ptr, reflect.Map, reflect.Slice, reflect.Chan, reflect.Func, reflect.UnsafePointer:
+	default:
+		return // a value copy is private to its goroutine
+	}
+	key := accessKey{rv.Pointer(), field}
 	a := s.access[key]
 	if a == nil {
 		a = &accessRec{wTid: -1, obj: obj}
